@@ -22,6 +22,8 @@ coalesced with the magic or with the handshake padding, and reads that block in 
 * `handshake_never_overreads`, `no_stall_first_read`, `coalesced_with_handshake`
                         a flight key ‖ pad ‖ magic ‖ data in one segment: the key read takes 192 bytes,
                         the rest stays on the socket and is delivered without further traffic
+* `tail_with_error_delivered`, `tail_with_error_lost_in_scan`  bytes the conn returns together with an
+                        error: delivered after the magic, discarded inside the scan (finding)
 * `read_progress`       once everything arrived every further `Read` delivers at least one byte until all is delivered
 * `too_much_padding_rejected`  no magic at an offset ≤ maxPadding and ≥ maxPadding+32 bytes arrived ⇒ the
                         next `Read` fails and the conn is closed, nothing is ever delivered
@@ -320,6 +322,38 @@ theorem coalesced_with_handshake (P : Prims) (ks) (hL : P.sxor.Law ks) (c : Conn
   rcases f3 with ⟨a1, _⟩ | ⟨_, b2⟩
   · rw [hm] at a1; cases a1
   · simpa using b2
+
+/-! ### end of stream: bytes returned together with an error -/
+
+/-- **After the magic, bytes returned together with an error are delivered.** When the handshake
+buffer is drained and the underlying conn hands out a final chunk in the same call as an error
+(`n > 0, err ≠ nil`), the `Read` returns the decryption of the chunk along with the error. -/
+theorem tail_with_error_delivered (P : Prims) (ks) (hL : P.sxor.Law ks) (c : Conn) (hm : c.rxMagic = none)
+    (hcl : c.closed = false) (hb : c.rxBuf.getD [] = []) (max : Nat) (chunk : Bytes) :
+    readLast P c max chunk =
+      .dataErr { c with rxBuf := none, rx := { c.rx with off := c.rx.off + chunk.length } }
+        (xorAt (ks c.rx.key c.rx.iv) c.rx.off chunk) := by
+  unfold readLast
+  simp only [hcl, Bool.false_eq_true, ↓reduceIte, hm, Stream.xor]
+  rw [hL]
+  cases hb' : c.rxBuf with
+  | none => rfl
+  | some buf =>
+    cases buf with
+    | nil => rfl
+    | cons x xs => simp [hb'] at hb
+
+/-- **Finding (unchanged code), stated on the model:** while the scan for the magic is still running,
+bytes that the conn returns *together with an error* are discarded — `findPeerMagic` returns the
+error before looking at them ("continuing past that is nonsensical") — even when they contain the
+magic and data: nothing is delivered and the connection is closed. A kernel TCP socket never
+returns data and an error from one call, in-memory wires may. Harness signature
+`tail-lost-data-with-error-in-magic-scan` (KNOWN-FINDING). -/
+theorem tail_with_error_lost_in_scan (P : Prims) (c : Conn) (m : Bytes) (hm : c.rxMagic = some m)
+    (hcl : c.closed = false) (max : Nat) (chunk : Bytes) :
+    readLast P c max chunk = .fail { c with closed := true } .eof := by
+  unfold readLast
+  simp [hcl, hm]
 
 /-! ### over-padding and missing magic -/
 
